@@ -63,6 +63,11 @@ theorem hier_file_object_form_sound (cfg : Cfg) (hs : cfg.validator = .soft) (R 
     document node that is not a number gets through soft validation, and none makes an exception escape. -/
 theorem facts02_number_kinds : facts02.nonNumberForNumber = [] := by decide
 
+/-- integer kind-soundness at the float boundary: an integral float of any magnitude (2.0, 2**53, 1e16, 1e22, negative) for an
+    Integer member reaches user code as exactly that `int` — measured for json / yaml / msgpack, arguments and array items
+    (the model's `intOfFloat` converts every integral float when this holds) -/
+theorem facts02_int_from_float : facts02.intFromFloat = true := by decide
+
 /-- a class with `validate_freq=False` loses only the occurrence check of its own members (`Cfg.noFreq`, `finish`): kinds and
     facets are still validated below it — `hier_decode_sound` holds for every `cfg`, whatever `cfg.noFreq` is -/
 theorem facts02_nofreq_kinds : facts02.noFreqKeepsValidation = true := by decide
